@@ -39,7 +39,7 @@ impl EventAccessTracker
             debug_assert!(false);
             return;
         };
-        let (_, data_entity) = self.prepared.swap_remove(pos);
+        let (_, data_entity) = self.prepared.remove(pos);
 
         debug_assert!(!self.currently_reacting);
         self.currently_reacting = true;
